@@ -52,7 +52,7 @@ func main() {
 	var sites []site
 	add := func(n ast.Node, start, end token.Pos, kind, fn, repl string) {
 		s, e := fset.Position(start).Offset, fset.Position(end).Offset
-		sites = append(sites, site{ID: len(sites), Line: fset.Position(start).Line, Kind: kind, Func: fn, Orig: string(src[s:e]), Repl: repl, start: s, end: e})
+		sites = append(sites, site{ID: len(sites), Line: fset.PositionFor(start, false).Line, Kind: kind, Func: fn, Orig: string(src[s:e]), Repl: repl, start: s, end: e})
 	}
 	swap := map[token.Token]string{token.LSS: "<=", token.LEQ: "<", token.GTR: ">=", token.GEQ: ">", token.EQL: "!=", token.NEQ: "==",
 		token.ADD: "-", token.SUB: "+", token.LAND: "||", token.LOR: "&&"}
